@@ -330,10 +330,15 @@ def run_lifecycle(shard, res, h, valid, only):
         by_kind = {}
         for k, d in docs:
             by_kind.setdefault(k, d)
-        for (np, nd) in LIFECYCLES if shard['tier'] == 'thorough' else LIFECYCLES[:2]:
+        plan = list(LIFECYCLES if shard['tier'] == 'thorough' else LIFECYCLES[:2])
+        if only is not None:
+            # confirmation run in a fresh interpreter: where objects land differs from process to process, so the recorded
+            # history is repeated a few times (it stops at the first violation)
+            plan = [tuple(only)] * 6
+        for (np, nd) in plan:
             key = [np, nd]
-            if only is not None and only != key:
-                continue
+            if only is not None and res['violations']:
+                break
             perm = []
             for i in range(np):
                 app = spec.make_app(b, harness.make_proto(proto, None, resolve_entities=True, load_dtd=True, huge_tree=True), harness.make_proto(proto))
